@@ -1,40 +1,177 @@
-//! C29 - row and column attributes change independently.
+//! C29 - row and column attributes change independently; C27 - descriptors stay well-formed.
+//! One setter call from an arbitrary well-formed descriptor layout (inductive step), frame and effect
+//! conditions read through the real getters at a symbolic probe column/row.
 use super::rt::*;
 use super::st::*;
-use crate::constants::{COLUMN_WIDTH_FACTOR, DEFAULT_COLUMN_WIDTH};
 use crate::types::*;
 
-#[derive(Clone, Copy, PartialEq)]
-struct ColAttr { width: f64, hidden: bool, style: Option<i32> }
+const NCOLS: usize = 2;
+const NROWS: usize = 2;
 
-fn col_attr(ws: &Worksheet, c: i32) -> ColAttr {
-    ColAttr {
-        width: ws.get_actual_column_width(c).unwrap(),
-        hidden: ws.is_column_hidden(c).unwrap(),
-        style: ws.get_column_style(c).unwrap(),
+/// stored width record of the descriptor covering column c (None: default width)
+fn col_width_rec(ws: &Worksheet, c: i32) -> Option<(f64, bool)> {
+    let mut i = 0;
+    while i < ws.cols.len() {
+        if ws.cols[i].min <= c && c <= ws.cols[i].max { return Some((ws.cols[i].width, ws.cols[i].custom_width)); }
+        i += 1;
     }
+    None
 }
 
-const NCOLS: usize = 2;
+fn row_rec(ws: &Worksheet, r: i32) -> Option<(f64, bool, i32, bool, bool)> {
+    let mut i = 0;
+    while i < ws.rows.len() {
+        if ws.rows[i].r == r { let x = &ws.rows[i]; return Some((x.height, x.custom_height, x.s, x.custom_format, x.hidden)); }
+        i += 1;
+    }
+    None
+}
 
-pub fn h_c29_col_width() {
-    let mut ws = sheet_with(any_cols(NCOLS), vec![]);
+/// is column c covered by a descriptor spanning several columns?
+fn in_multi_col_descriptor(ws: &Worksheet, c: i32) -> bool {
+    let mut i = 0;
+    while i < ws.cols.len() {
+        if ws.cols[i].min <= c && c <= ws.cols[i].max { return ws.cols[i].min != ws.cols[i].max; }
+        i += 1;
+    }
+    false
+}
+
+fn row_style(ws: &Worksheet, r: i32) -> Option<(i32, bool)> {
+    let mut i = 0;
+    while i < ws.rows.len() {
+        if ws.rows[i].r == r { return Some((ws.rows[i].s, ws.rows[i].custom_format)); }
+        i += 1;
+    }
+    // no record: default style, exactly what a fresh record (s = 0, custom_format = false) reads as
+    Some((0, false))
+}
+
+fn two_cols() -> (Worksheet, i32, i32) {
+    let ws = sheet_with(any_cols(NCOLS), vec![]);
     let c = any_col_index();
     let o = any_col_index();
     assume(o != c);
+    (ws, c, o)
+}
+
+pub fn h_c29_col_hidden() {
+    let (mut ws, c, o) = two_cols();
+    let hidden = any_bool();
+    let before_o = (ws.is_column_hidden(o), ws.get_column_style(o), col_width_rec(&ws, o));
+    let style_c = ws.get_column_style(c);
+    let r = ws.set_column_hidden(c, hidden);
+    check("C29.col_hidden.ok", r.is_ok());
+    check("C29.col_hidden.applied", ws.is_column_hidden(c) == Ok(hidden));
+    check("C29.col_hidden.keeps_style", ws.get_column_style(c) == style_c);
+    check("C29.col_hidden.frame_other", before_o == (ws.is_column_hidden(o), ws.get_column_style(o), col_width_rec(&ws, o)));
+    check("C27.col_hidden.wf", cols_well_formed(&ws.cols));
+    reach("C29.col_hidden");
+}
+
+pub fn h_c29_col_style() {
+    let (mut ws, c, o) = two_cols();
+    let style = any_i32();
+    let before_o = (ws.is_column_hidden(o), ws.get_column_style(o), col_width_rec(&ws, o));
+    let hidden_c = ws.is_column_hidden(c);
+    let multi = in_multi_col_descriptor(&ws, c);
+    let r = ws.set_column_style(c, style);
+    check("C29.col_style.ok", r.is_ok());
+    check_kf("C29.col_style.applied", ws.get_column_style(c) == Ok(Some(style)), "KF-C29-1", multi);
+    check("C29.col_style.keeps_hidden", ws.is_column_hidden(c) == hidden_c);
+    check("C29.col_style.frame_other", before_o == (ws.is_column_hidden(o), ws.get_column_style(o), col_width_rec(&ws, o)));
+    check("C27.col_style.wf", cols_well_formed(&ws.cols));
+    reach("C29.col_style");
+}
+
+/// styling a *hidden* column must not destroy its width (seen again after unhide)
+pub fn h_c29_col_style_hidden_width() {
+    let (mut ws, c, _o) = two_cols();
+    assume(ws.is_column_hidden(c) == Ok(true));
+    let before = ws.get_actual_column_width(c);
+    let r = ws.set_column_style(c, any_i32());
+    check("C29.col_style_hidden.ok", r.is_ok());
+    check_kf("C29.col_style_hidden.keeps_width", ws.get_actual_column_width(c) == before, "KF-C29-2", true);
+    reach("C29.col_style_hidden");
+}
+
+pub fn h_c29_col_delete_style() {
+    let (mut ws, c, o) = two_cols();
+    let before_o = (ws.is_column_hidden(o), ws.get_column_style(o), col_width_rec(&ws, o));
+    let hidden_c = ws.is_column_hidden(c);
+    let width_c = col_width_rec(&ws, c);
+    let r = ws.delete_column_style(c);
+    check("C29.col_delete_style.ok", r.is_ok());
+    check("C29.col_delete_style.applied", ws.get_column_style(c) == Ok(None));
+    check_kf("C29.col_delete_style.keeps_hidden", ws.is_column_hidden(c) == hidden_c, "KF-C29-3", hidden_c == Ok(true));
+    check("C29.col_delete_style.frame_other", before_o == (ws.is_column_hidden(o), ws.get_column_style(o), col_width_rec(&ws, o)));
+    check("C27.col_delete_style.wf", cols_well_formed(&ws.cols));
+    reach("C29.col_delete_style");
+}
+
+pub fn h_c29_col_width() {
+    let (mut ws, c, o) = two_cols();
     let w = any_f64();
-    assume(w >= 0.0 && w <= MAX_W * COLUMN_WIDTH_FACTOR);
-    let before_c = col_attr(&ws, c);
-    let before_o = col_attr(&ws, o);
+    assume(w >= 0.0 && w <= MAX_W);
+    let before_o = (ws.is_column_hidden(o), ws.get_column_style(o), col_width_rec(&ws, o));
+    let hidden_c = ws.is_column_hidden(c);
+    let style_c = ws.get_column_style(c);
     let r = ws.set_column_width(c, w);
     check("C29.col_width.ok", r.is_ok());
-    let after_c = col_attr(&ws, c);
-    let after_o = col_attr(&ws, o);
-    check("C29.col_width.frame_other", before_o == after_o);
-    check("C29.col_width.keeps_hidden", before_c.hidden == after_c.hidden);
-    check("C29.col_width.keeps_style", before_c.style == after_c.style);
-    let expect = if w != DEFAULT_COLUMN_WIDTH { (w / COLUMN_WIDTH_FACTOR) * COLUMN_WIDTH_FACTOR } else { DEFAULT_COLUMN_WIDTH };
-    check("C29.col_width.applied", after_c.width == expect);
-    check("C29.col_width.wf", cols_well_formed(&ws.cols));
+    check("C29.col_width.keeps_hidden", ws.is_column_hidden(c) == hidden_c);
+    check("C29.col_width.keeps_style", ws.get_column_style(c) == style_c);
+    check("C29.col_width.frame_other", before_o == (ws.is_column_hidden(o), ws.get_column_style(o), col_width_rec(&ws, o)));
+    check("C27.col_width.wf", cols_well_formed(&ws.cols));
     reach("C29.col_width");
+}
+
+fn two_rows() -> (Worksheet, i32, i32) {
+    let ws = sheet_with(vec![], any_rows(NROWS));
+    let r = any_row_index();
+    let o = any_row_index();
+    assume(o != r);
+    (ws, r, o)
+}
+
+pub fn h_c29_row_hidden() {
+    let (mut ws, r, o) = two_rows();
+    let hidden = any_bool();
+    let before_o = (ws.is_row_hidden(o), row_style(&ws, o), row_rec(&ws, o));
+    let style_r = row_style(&ws, r);
+    let res = ws.set_row_hidden(r, hidden);
+    check("C29.row_hidden.ok", res.is_ok());
+    check("C29.row_hidden.applied", ws.is_row_hidden(r) == Ok(hidden));
+    check("C29.row_hidden.keeps_style", row_style(&ws, r) == style_r);
+    check("C29.row_hidden.frame_other", before_o == (ws.is_row_hidden(o), row_style(&ws, o), row_rec(&ws, o)));
+    check("C27.row_hidden.wf", rows_well_formed(&ws.rows));
+    reach("C29.row_hidden");
+}
+
+pub fn h_c29_row_style() {
+    let (mut ws, r, o) = two_rows();
+    let style = any_i32();
+    let before_o = (ws.is_row_hidden(o), row_style(&ws, o), row_rec(&ws, o));
+    let hidden_r = ws.is_row_hidden(r);
+    let res = ws.set_row_style(r, style);
+    check("C29.row_style.ok", res.is_ok());
+    check("C29.row_style.keeps_hidden", ws.is_row_hidden(r) == hidden_r);
+    check("C29.row_style.frame_other", before_o == (ws.is_row_hidden(o), row_style(&ws, o), row_rec(&ws, o)));
+    check("C27.row_style.wf", rows_well_formed(&ws.rows));
+    reach("C29.row_style");
+}
+
+pub fn h_c29_row_height() {
+    let (mut ws, r, o) = two_rows();
+    let h = any_f64();
+    assume(h >= 0.0 && h <= MAX_W);
+    let before_o = (ws.is_row_hidden(o), row_style(&ws, o), row_rec(&ws, o));
+    let hidden_r = ws.is_row_hidden(r);
+    let style_r = row_style(&ws, r);
+    let res = ws.set_row_height(r, h);
+    check("C29.row_height.ok", res.is_ok());
+    check("C29.row_height.keeps_hidden", ws.is_row_hidden(r) == hidden_r);
+    check("C29.row_height.keeps_style", row_style(&ws, r) == style_r);
+    check("C29.row_height.frame_other", before_o == (ws.is_row_hidden(o), row_style(&ws, o), row_rec(&ws, o)));
+    check("C27.row_height.wf", rows_well_formed(&ws.rows));
+    reach("C29.row_height");
 }
